@@ -64,8 +64,25 @@ Cats4 == {Cat(<<tSmile>>), Cat(<<tA, tSmile>>), Cat(<<tSmile, tA>>), Cat(<<tRang
 U4 == {Anch(<<Term(Group(Alt(<<c1, c2>>)), q)>>) : c1 \in Cats4, c2 \in Cats4, q \in (IF Wide THEN FewQ \cup {Q(2, 2, FALSE)} ELSE {Q(1, Unbounded, FALSE)})}
       \cup {Anch(<<Term(Group(Alt(<<c1>>)), Q(0, Unbounded, FALSE)), tSmile>>) : c1 \in Cats4}
 
-Families == <<U1, U2 \cup U2b, U3, U4>>
-FamilyNames == <<"U1", "U2", "U3", "U4">>
+\* U2c: a mixed set whose BMP part is exactly one character, for every character that is special somewhere in the
+\* concrete syntax (outside a set the rewriting has to spell it as a literal), next to an astral single / range
+MetaChars == {124, 40, 41, 42, 43, 63, 46, 36, 94, 123, 125, 92, 45, 93, 91}
+U2c == {Anch(<<Term(CSet(FALSE, rs), q)>>) :
+          rs \in UNION {{<<Single(Chr(c, FALSE)), Single(E(cSmile))>>, <<RangeOf(<<cFirst, cSecond>>), Single(Chr(c, FALSE))>>} : c \in MetaChars},
+          q \in {NoQ} \cup (IF Wide THEN {Q(1, Unbounded, FALSE)} ELSE {})}
+
+\* U5: runs of adjacent astral terms (two and three literals, a literal run followed by an astral set / quantified
+\* literal), at top level, between BMP literals, inside groups and alternatives
+tFirst == Term(E(cFirst), NoQ)
+Runs == {<<tSmile, tFirst>>, <<tSmile, tFirst, tSmile>>, <<tSmile, tFirst, tRange>>, <<tA, tSmile, tFirst, tA>>,
+         <<tSmile, tFirst, Term(E(cSmile), Q(0, Unbounded, FALSE))>>, <<tSmile, tSmile, tSmile>>, <<tRange, tSmile, tFirst>>}
+U5 == {Anch(r) : r \in Runs}
+      \cup {Anch(<<Term(Group(OneCat(r)), q)>>) : r \in Runs, q \in {NoQ, Q(1, 2, FALSE)}}
+      \cup {Anch(<<Term(Group(Alt(<<Cat(r), Cat(<<tA>>)>>)), NoQ)>>) : r \in Runs}
+      \cup {Anch(<<tA, Term(Group(OneCat(r)), NoQ), tSmile>>) : r \in {<<tSmile, tFirst>>, <<tSmile, tFirst, tSmile>>}}
+
+Families == <<U1, U2 \cup U2b \cup U2c, U3, U4, U5>>
+FamilyNames == <<"U1", "U2", "U3", "U4", "U5">>
 
 \* string alphabet: code points of the tree, their neighbours, and for every range the ends of the 1024-blocks at
 \* its borders, one point in the middle; scalar values only
@@ -96,8 +113,10 @@ Alphabet(tree) ==
       d == TakeEnds(P \ (a \cup b), AlphaCap - 2 - Cardinality(a) - Cardinality(b), FALSE)
   IN a \cup b \cup d \cup {Neutral, cSmile2 + 7}
 
+\* runs of literals need strings of three characters: a small alphabet (the mentioned points and the two fillers)
+SmallAlphabet(tree) == TakeMin({c \in Mentioned(tree) : IsScalar(c)}, 3) \cup {Neutral, cSmile2 + 7}
 CaseOf(f, tree) ==
-  LET A == Alphabet(tree)
+  LET A == IF FamilyNames[f] = "U5" THEN SmallAlphabet(tree) ELSE Alphabet(tree)
   IN [fam |-> FamilyNames[f], tree |-> tree, text |-> RenderSpec(tree, Canonical), alpha |-> SetToSeq(A),
       maxlen |-> LengthFor(A, LenCap, Budget)]
 Cases == UNION {{CaseOf(f, t) : t \in {x \in Families[f] : WritableAlt(x)}} : f \in 1..Len(Families)}
